@@ -819,14 +819,24 @@ theorem step_active {cfg : Cfg} {s s' : St} {a : Act} (h : step cfg s a = some s
   | spawn m d ev => simp [step] at h; subst h; exact hact'
   | create d tag => simp [step] at h; subst h; exact hact'
   | release c0 => simp only [step] at h; split at h <;> simp at h; subst h; exact hact'
+  | deadline c0 => simp only [step] at h; split at h <;> simp at h; subst h; exact hact'
+  | watch c0 =>
+    simp only [step] at h
+    repeat' (split at h)
+    all_goals (try (simp at h; done))
+    all_goals (injection h with h; subst h)
+    · simpa using hact'
+    · exact hact'
   | kick c0 => simp only [step] at h; split at h <;> simp at h; subst h; simpa using hact'
   | drop c0 => simp only [step] at h; split at h <;> simp at h; subst h; simpa using hact'
   | quit => simp [step] at h; subst h; exact absurd hact' (by rw [quitPlayer_active]; simp)
 
 /-- every step of the repaired code that stays out of the kick path and keeps the player connected preserves the
     switch-over invariants -/
-theorem core2_step {cfg : Cfg} {s s' : St} {a : Act} (hjs : cfg.joinBySnapshot = false) (hI : Inv1 s) (hC : Core2 s)
-    (hact' : s'.active = true) (hNK : NoKick s) (hNK' : NoKick s') (h : step cfg s a = some s') : Core2 s' := by
+theorem core2_step {cfg : Cfg} {s s' : St} {a : Act} (hjs : cfg.joinBySnapshot = false)
+    (hwc : cfg.watcherCloses = true) (hI : Inv1 s) (hC : Core2 s)
+    (hact' : s'.active = true) (hNK : NoKick s) (hNK' : NoKick s')
+    (hgw : ∀ c, a = .watch c → swA (s.conns c).h = false) (h : step cfg s a = some s') : Core2 s' := by
   have hact := step_active h hact'
   cases a with
   | task i => exact core2_benign hC (stepTask_benign hI.jp hI.tc hI.w hC hact hact' hNK hNK' h)
@@ -851,6 +861,22 @@ theorem core2_step {cfg : Cfg} {s s' : St} {a : Act} (hjs : cfg.joinBySnapshot =
         exact ⟨fun hs => by simp [hidle, swH] at hs, rfl, rfl, Iff.rfl, id, fun hs => by simp [hidle] at hs⟩
       · exact benignConn_refl _
     · simp at h
+  | deadline c0 =>
+    simp only [step] at h
+    split at h <;> simp at h
+    subst h
+    exact core2_benign hC (benignStep_of_eq (benignStep_refl s) rfl rfl rfl rfl)
+  | watch c0 =>
+    have hsw := hgw c0 rfl
+    simp only [step, hwc, Bool.and_true] at h
+    repeat' (split at h)
+    all_goals (try (simp at h; done))
+    all_goals (injection h with h; subst h)
+    · rename_i hph
+      have hnp : (s.conns c0).phase ≠ .play := by
+        simp at hph; rcases hph with h | h <;> simp [h]
+      exact core2_benign hC (closeConn_benignStep s c0 hnp hsw)
+    · simp_all
   | kick c0 =>
     simp only [step] at h
     split at h
